@@ -10,6 +10,7 @@ import (
 	"os"
 	"os/exec"
 	"regexp"
+	"runtime/debug"
 	"strings"
 	"sync"
 )
@@ -222,6 +223,9 @@ func safely(f func()) (panicMsg string) {
 			if panicMsg == "" {
 				panicMsg = "panic"
 			}
+			if site := callSite(string(debug.Stack())); site != "" {
+				panicMsg += " @" + site
+			}
 		}
 	}()
 	f()
@@ -267,7 +271,43 @@ func crashSignature(prop string, msg string, data map[string]any) string {
 	case strings.Contains(msg, "Integer overflow"):
 		return "panic:integer-overflow"
 	case strings.Contains(msg, "UNREPRESENTABLE_DATE"):
+		// identified by the call site: the klog function that asked for the date
+		if i := strings.LastIndex(msg, " @"); i >= 0 {
+			return "panic:unrepresentable-date@" + msg[i+2:]
+		}
 		return "panic:unrepresentable-date"
+	}
+	return ""
+}
+
+// callSite names the klog function in which a panic originated: the innermost frame of
+// github.com/jotaen/klog that is not the date arithmetic itself (klog/date.go).
+func callSite(stack string) string {
+	lines := strings.Split(stack, "\n")
+	seenPanic := false
+	for i := 0; i+1 < len(lines); i++ {
+		l := lines[i]
+		if strings.HasPrefix(l, "panic(") {
+			seenPanic = true
+			continue
+		}
+		if !seenPanic || !strings.HasPrefix(l, "github.com/jotaen/klog/") {
+			continue
+		}
+		file := strings.TrimSpace(lines[i+1])
+		if strings.Contains(file, "/klog/date.go:") {
+			continue
+		}
+		fn := strings.TrimPrefix(l, "github.com/jotaen/klog/")
+		if k := strings.LastIndex(fn, "("); k > 0 {
+			fn = fn[:k]
+		}
+		fn = strings.TrimPrefix(fn, "klog/")
+		// closures: keep the enclosing function
+		for strings.HasSuffix(fn, ".func1") || strings.HasSuffix(fn, ".func2") || strings.HasSuffix(fn, ".func3") {
+			fn = fn[:len(fn)-6]
+		}
+		return fn
 	}
 	return ""
 }
